@@ -64,7 +64,49 @@ class Repo(object):
         self.equivalence = None
         if not os.environ.get('PYX_NO_EQUIV'):
             from . import equiv
-            self.equivalence = equiv.apply(self)
+            cache = os.environ.get('PYX_EQUIV_CACHE')     # development tools only (refall / reseed run 20 checks per scratch tree);
+            if not cache:                                 # the registered checks never set it: nothing is cached between their runs
+                self.equivalence = equiv.apply(self)
+            else:
+                self._equiv_cached(equiv, cache)
+
+    def _equiv_cached(self, equiv, cache):
+        import pickle
+        h = hashlib.sha256(self.digest().encode())
+        here = os.path.dirname(os.path.abspath(__file__))
+        for fn in ('normal.py', 'equiv.py', 'reference.json', 'inventory.json', 'src.py'):
+            with open(os.path.join(here, fn), 'rb') as f:
+                h.update(f.read())
+        path = os.path.join(cache, h.hexdigest()[:32] + '.pkl')
+        if os.path.exists(path):
+            try:
+                with open(path, 'rb') as f:
+                    summary, trees = pickle.load(f)
+                for name, tree in trees.items():
+                    self.modules[name].tree = tree
+                    self.modules[name].annotate()
+                self.equivalence = summary
+                return
+            except Exception:
+                pass
+        self.equivalence = equiv.apply(self)
+        trees = {}
+        for name, m in self.modules.items():
+            for node in ast.walk(m.tree):
+                for a in ('_parent', '_module'):
+                    if hasattr(node, a):
+                        delattr(node, a)
+            trees[name] = m.tree
+        try:
+            os.makedirs(cache, exist_ok=True)
+            tmp = path + '.%d.tmp' % os.getpid()
+            with open(tmp, 'wb') as f:
+                pickle.dump((self.equivalence, trees), f, protocol=pickle.HIGHEST_PROTOCOL)
+            os.replace(tmp, path)
+        except Exception:
+            pass
+        for m in self.modules.values():
+            m.annotate()
 
     # -- digests -----------------------------------------------------------
     def digest(self, names=None):
